@@ -73,7 +73,7 @@ fn main() {
                     std::process::exit(2)
                 }
             };
-            let f = mc::finish(&rep, min_states);
+            let f = mc::finish(&rep, min_states, &spaces::recheck);
             std::process::exit(f.exit_code);
         }
         "replay" => {
